@@ -49,12 +49,12 @@ CHECKS = {
             "Held (modulo listed findings) on seeded programs of 5-60 lines covering labels, sections, .ORG, all data directives and symbolic operands, and on all 2-statement combinations of construct classes: pass-1 sizes == pass-2 bytes, statement addresses and label values == independent walk, image == standalone statements, deterministic and history-free, page rule enforced.",
             "Well-formedness is by construction of the generator; rejections of admitted constructs are keyed by construct.", "DESIGN.md 3/C10"),
     "C11": ("exploration",
-            "reference byte-store monitor + conservation diff of every backing array after each store + alias/twin probes + wide-vs-byte metamorphic oracle on the real PCE500Memory and MemoryImage; CPU-facing Rust bus through CoreRuntime::step",
+            "PC-E500 loader probes (ROM window / system image of several lengths, stores of every width into ROM/vectors/no-RAM window), wide internal stores vs byte stores through the CPU bus, reference byte-store monitor + conservation diff of every backing array after each store + alias/twin probes + wide-vs-byte metamorphic oracle on the real PCE500Memory and MemoryImage; CPU-facing Rust bus through CoreRuntime::step",
             "Held (modulo listed findings) on every memory configuration x seeded histories of 8/16/24-bit accesses concentrated on region boundaries and 32-bit aliases: reads equal the last write (RAM) or the image (ROM/read-only/absent), stores change only the written locations in ALL backing stores, aliases agree, wide accesses compose little-endian.",
             "Device windows without installed handlers behave as plain memory; reference knows only the applied configuration.", "DESIGN.md 3/C11"),
     "C12": ("exploration",
             "online trace checker over per-step observation records of the real PCE500Emulator and CoreRuntime (entry recognised from architectural effects, shadow frame stack for RETI, bounded-progress counter, HALT/OFF clauses) under enumerated and seeded event schedules; hook on _set_isr_bits for the KEYI clause",
-            "Held (modulo listed findings) on all event sequences up to depth 2 at all placements in a 10-step window (thorough: depth 3 over a 14-event alphabet) for 3 base programs and on seeded runs of 50-400 steps over 5 main-loop shapes (busy, HALT, OFF, WAIT, master-enable toggling) and handlers ending in plain or PRE-prefixed RETI with timers of period 1-9 cycles, key/ON events and firmware-style IMR/ISR writes: every entry had master+source enable and a pending bit, pushed [IMR,F,PC] frame correct, bit 7 cleared, RETI restored PC/F/IMR/S, eligible requests delivered within 2 boundaries, halted CPUs frozen and woken exactly by status bits.",
+            "Held (modulo listed findings) on all event sequences up to depth 2 at all placements in a 10-step window (thorough: depth 3 over a 14-event alphabet) for 3 base programs and on seeded runs of 50-400 steps over 7 main-loop shapes (busy, HALT, OFF, WAIT, master-enable toggling by byte and by 16-bit store, software interrupts) with and without PCE500Emulator.fast_mode, a phase sweep of every timer period against every loop, stack frames on every alignment across overlay/card edges, directed key/ON-key-during-handler windows, and handlers ending in plain or PRE-prefixed RETI with timers of period 1-9 cycles, key/ON events and firmware-style IMR/ISR writes: every entry had master+source enable and a pending bit, pushed [IMR,F,PC] frame correct, bit 7 cleared, RETI restored PC/F/IMR/S, eligible requests delivered within 2 boundaries, halted CPUs frozen and woken exactly by status bits.",
             "Handlers start with NOP so both delivery conventions expose the frame; liveness restated as bounded progress.", "DESIGN.md 3/C12"),
     "C13": ("exploration",
             "reference-arithmetic monitor + cross-core comparison on every tick of the real TimerScheduler.advance and TimerContext::tick_timers; icontract postcondition on advance(); machine-level runs of both real machines with a counting hook on advance() (one fire per boundary crossed, also inside multi-cycle WAIT) and live keyboard",
@@ -62,23 +62,23 @@ CHECKS = {
             "Unit level plus machine level (NOP/HALT/WAIT programs, complete small period grid incl. period 0); for gaps longer than a period the statement promises one fire and a target in the future only.", "DESIGN.md 3/C13"),
     "C14": ("exploration",
             "online clause monitor driven by the ground truth of issued operations (KIL soundness/completeness, per-key event automaton with cadence and bounded release, FIFO only-oldest-dropped, KEYI edge) on the real Python KeyboardMatrix/handler and Rust KeyboardMatrix; icontract invariant on _enqueue_event",
-            "Held (modulo listed findings) on seeded adversarial histories under both polarities and 81 threshold settings, and on all histories up to length 4/5 over a 3-key/2-strobe alphabet.",
+            "Held (modulo listed findings) on seeded adversarial histories under both polarities and 81 threshold settings (incl. bursts of 9-14 keys debounced on one tick, repeat switched off, polarity through the setter), and on all histories up to length 4/5 over a 3-key/2-strobe alphabet; the queue is compared with the tail of (previous queue + generated events), release events need `release` consecutive gap ticks.",
             "Each model is judged at its own documented consumption points; Python KEYI is monitored at machine level in C12.", "DESIGN.md 3/C14"),
     "C15": ("exploration",
             "reference HD61202-pair monitor after every window access on the real Python HD61202Controller and Rust LcdController, cross-model comparison, complete VRAM-bit -> pixel ownership enumeration, per-write display diff",
-            "Held (modulo listed findings) on seeded histories over all 16 low-nibble decodings and mirrors, on all sequences of <= 2/3 operations over a 24-op alphabet, and on the complete 8192-bit flip map of both models (Rust under 5 start lines): state, read values, one-owner-per-pixel, one column per data write.",
+            "Held (modulo listed findings) on seeded histories (with mid-history controller resets) over all 16 low-nibble decodings and mirrors, on all sequences of <= 2/3 operations over a 24-op alphabet, and on the complete 8192-bit flip map of both models (Rust under 5 start lines): state, read values, one-owner-per-pixel, one column per data write.",
             "Reference is the protocol text of the property; display composition is compared per model only.", "DESIGN.md 3/C15"),
     "C16": ("fault_enumeration",
             "record-by-record comparison of the observed future of the original machine and of a freshly constructed machine that loaded the snapshot, with the snapshot taken at EVERY step boundary of seeded runs of the real PCE500Emulator and CoreRuntime; metamorphic no-perturbation run; cross-model load of every 3rd snapshot; registers.bin decoded against live registers",
-            "Held (modulo listed findings) for every step boundary as snapshot point of 64 (quick) / 320 (thorough) seeded runs per model (running, halted, powered off, inside handlers, pending/masked requests, keys held, FIFO non-empty, mid-subroutine) x K=30/45 further steps and inputs: registers, all IMEM bytes, RAM, stack, LCD registers+VRAM, KIL/FIFO, ISR/IMR, power state identical at every step; saving never perturbed the original; each model loaded the other's files into the same observable state.",
+            "Held (modulo listed findings) for every step boundary as snapshot point of 64 (quick) / 320 (thorough) seeded runs per model (running, halted, powered off, inside hardware and software-interrupt handlers incl. nested, pending/masked requests, keys held, FIFO non-empty/full, LCD busy, mid-subroutine, card window edges) x K=30/45 further steps and inputs: registers, all IMEM bytes, RAM, stack, LCD registers+VRAM, KIL/FIFO, ISR/IMR, power state identical at every step; saving never perturbed the original; each model loaded the other's files into the same observable state.",
             "Continuations are bounded (K steps); bookkeeping-only fields (counters, last source) are counted, not judged.", "DESIGN.md 3/C16"),
     "C17": ("other",
             "complete comparison of live tables dumped from the running Python modules and the real Rust crate + behavioural recovery of private tables by executed probes on both cores",
-            "All 256 opcode entries x 4 fields, register width/layout copies, ~100 constants, 87 key codes, 15 PRE bytes, 58 single-operand opcodes x 2 prefixes, both vectors, both Binary Ninja views: compared completely (finite space).",
+            "All 256 opcode entries x 4 fields, decoded-instance operand widths of every MVW/EXW/MVP/EXP encoding, immediate-width and register-selector behaviour of both cores, register width/layout copies, ~100 constants, 87 key codes, 15 PRE bytes, 58 single-operand opcodes x 2 prefixes, both vectors, both Binary Ninja views: compared completely (finite space).",
             "Two small projections normalise operand shapes and width units.", "DESIGN.md 3/C17"),
     "C18": ("exploration",
             "online checker over the resumption log (current_cycle() at every resumption), the DriverRunResult sequence and clock() of the real AsyncDriver driven with scripted tasks under several budget partitions (wake-time arithmetic from the scripts, monotone time, budget respect, events exactly once in emission order, metamorphic partition invariance); differential AsyncRuntimeRunner vs CoreRuntime::step on full machine observations",
-            "Held on all single tasks of <= 3 steps over {sleep 0,1,2,3,7, bare Pending} x {emit, no emit}, all pairs (quick) and triples (thorough) of tasks of <= 2 steps over the reduced alphabet, under 4-7 budget partitions each, on seeded sets of 1-4 tasks with up to 6 steps, durations up to 2^33 and start clocks up to 2^40, and on 480 (quick) / 8000 (thorough) generated programs and interrupt/timer/keyboard ROM templates x slice sizes {1,2,3,10,10000} x split instruction counts.",
+            "Held on all single tasks of <= 3 steps over {sleep 0,1,2,3,7, bare Pending} x {emit, no emit}, all pairs (quick) and triples (thorough) of tasks of <= 2 steps over the reduced alphabet, under 4-7 budget partitions each plus two 'disturbed' runs (a second live driver and host block_on calls between the calls), on seeded sets of 1-4 tasks with up to 6 steps (incl. sleeps created before they are awaited, parked tasks), durations up to 2^33 and start clocks up to 2^40, and on 480 (quick) / 8000 (thorough) generated programs and interrupt/timer/keyboard ROM templates x slice sizes {1,2,3,10,10000} x split instruction counts.",
             "Same-cycle order is compared across partitions, not against a model; tasks emit at most one event per resumption as the statement allows.", "DESIGN.md 3/C18"),
 }
 
